@@ -163,6 +163,30 @@ def make_case(rng):
             conts.append(dict(id=cid, mode=mode, shape=shape, refs=[(t.id, t.shape, [fmt(v) for v in t.box.tuple()]) for t in refs],
                               trbl=[(k, fmt(v)) for k, v in trbl], feats=["inside." + shape] + ["ref." + t.shape for t in refs] + (["margin.inside"] if has_margin else [])))
         items.insert(rng.randint(0, len(items)), s)
+    if rng.random() < 0.2:
+        # 'inside' with three or more listed rects whose common area is known: any of them (first, middle, last) may be the
+        # tightest on some side
+        k = rng.choice([3, 3, 4, 5])
+        cx0, cy0 = F(rng.randint(-40, 120), 4), F(rng.randint(-40, 120), 4)
+        cw, ch = F(rng.randint(8, 60), 4), F(rng.randint(8, 60), 4)
+        ms = []
+        inter = None
+        for j in range(k):
+            l, t_, r_, b = [F(rng.choice([0, 0, 1, 2, 6, 15]), 2) for _ in range(4)]
+            bx = Box(cx0 - l, cy0 - t_, cx0 + cw + r_, cy0 + ch + b)
+            ms.append(("m%d" % j, bx))
+            inter = bx if inter is None else inter.intersect(bx)
+        order = list(range(k))
+        rng.shuffle(order)
+        for j in order:
+            mid, bx = ms[j]
+            items.insert(rng.randint(0, len(items)), '  <rect id="%s" xy="%s %s" wh="%s %s"/>' % (mid, fmt(bx.x1), fmt(bx.y1), fmt(bx.w), fmt(bx.h)))
+        lst = [ms[j] for j in order]
+        rng.shuffle(lst)
+        shape = rng.choice(["rect", "rect", "circle", "ellipse"])
+        items.append('  <%s id="cm" inside="%s"/>' % (shape, " ".join("#" + mid for mid, _ in lst)))
+        conts.append(dict(id="cm", mode="inside", shape=shape, refs=[(mid, "rect", [fmt(v) for v in bx.tuple()]) for mid, bx in lst],
+                          trbl=[("abs", "0")] * 4, feats=["inside." + shape, "inside.list>=3"]))
     if rng.random() < 0.06 and tops:
         # negative family: a listed element that has no bounding box (empty group, size in absolute units) - the container
         # cannot enclose 'all listed elements', so the document must be rejected rather than the member silently dropped
